@@ -144,7 +144,7 @@ func (h *h2Hist) opPeerConn() {
 	r := rs[h.rng.Intn(len(rs))]
 	ra := parseCanon(r)
 	p := h.peers[h.rng.Intn(len(h.peers))]
-	for _, c := range h.w.clients {
+	for _, c := range h.w.sortedClients() {
 		if a := h.live(c); a != nil && canonAddr(a.RelayAddr) == r {
 			p = h.goodPeer(c, false)
 		}
@@ -167,7 +167,7 @@ func (h *h2Hist) opPipe() {
 	switch h.rng.Intn(6) {
 	case 0, 1: // client -> peer on a bound data connection
 		var cs []*h2Client
-		for _, c := range h.w.clients {
+		for _, c := range h.w.sortedClients() {
 			if c.isData && c.raw {
 				cs = append(cs, c)
 			}
@@ -194,7 +194,7 @@ func (h *h2Hist) opPipe() {
 		h.do(fmt.Sprintf("pp2c %d %d %s", pc.lid, pc.cid, vhHex(d)), func() { _, _ = pc.conn.Write(d) })
 	case 4: // the client closes its data connection
 		var cs []*h2Client
-		for _, c := range h.w.clients {
+		for _, c := range h.w.sortedClients() {
 			if c.isData && c.raw {
 				cs = append(cs, c)
 			}
